@@ -3,7 +3,11 @@
 package server
 
 import (
+	"google.golang.org/protobuf/proto"
+
 	"github.com/sourcegraph/zoekt"
+	"github.com/sourcegraph/zoekt/grpc/chunk"
+	webserverv1 "github.com/sourcegraph/zoekt/grpc/protos/zoekt/webserver/v1"
 	verifrt "github.com/sourcegraph/zoekt/zz_verifrt"
 )
 
@@ -73,3 +77,98 @@ func H_C25_twin() {
 	H_C25_sampler()
 	verifrt.Assert(false, "twin")
 }
+
+// ---- gRPCChunkSender: one zoekt event becomes one or more wire messages
+
+type c25Msg struct {
+	files    []string
+	stats    *zoekt.Stats
+	priority float64
+	pending  float64
+}
+
+// c25Stream records each message at the moment it is sent, as the real stream serialises it
+// before Send returns (the chunker reuses its buffer afterwards).
+type c25Stream struct {
+	webserverv1.WebserverService_StreamSearchServer // nil: only Send is used
+	sent                                            []c25Msg
+}
+
+func (s *c25Stream) Send(m *webserverv1.StreamSearchResponse) error {
+	c := m.GetResponseChunk()
+	msg := c25Msg{priority: c.GetProgress().GetPriority(), pending: c.GetProgress().GetMaxPendingPriority()}
+	for _, f := range c.GetFiles() {
+		msg.files = append(msg.files, string(f.GetFileName()))
+	}
+	if c.GetStats() != nil {
+		st := zoekt.StatsFromProto(c.GetStats())
+		msg.stats = &st
+	}
+	s.sent = append(s.sent, msg)
+	return nil
+}
+
+// c25ProtoSize replaces proto.Size under the engine: an arbitrary non-negative size per file match
+// (so that any split of an event's files into wire messages is explored).
+func c25ProtoSize(m proto.Message) int {
+	if fm, ok := m.(*webserverv1.FileMatch); ok {
+		k := int(fm.GetFileName()[0] - 'A')
+		if k >= 0 && k < len(c25NextSizes) {
+			return c25NextSizes[k]
+		}
+	}
+	return 0
+}
+
+// H_C25_grpcSender: every event sent through gRPCChunkSender arrives as messages whose files,
+// concatenated, are the event's files in order; the event's statistics are attached to exactly one
+// message; every message but the last of an event tells the client that more is pending
+// (MaxPendingPriority >= Priority) and the last one carries the event's own progress; a stats-only
+// event is forwarded as one message.
+func H_C25_grpcSender() {
+	chunk.C25SizeHook = c25ProtoSize
+	st := &c25Stream{}
+	sender := gRPCChunkSender(st)
+	ev := &zoekt.SearchResult{}
+	verifrt.FillInts(&ev.Stats, "ev", 0, 1000, c25Durations)
+	ev.Progress = zoekt.Progress{Priority: float64(verifrt.Concretize(verifrt.IntRange("priority", 0, 2))), MaxPendingPriority: float64(verifrt.Concretize(verifrt.IntRange("pending", 0, 2)))}
+	nf := verifrt.Concretize(verifrt.IntRange("files", 0, verifrt.Param("files", 3, 4)))
+	for k := 0; k < nf; k++ {
+		ev.Files = append(ev.Files, zoekt.FileMatch{FileName: string(rune('A' + k))})
+	}
+	// sizes are attached to the wire file matches as they are created: intercept through the size stub
+	c25NextSizes = nil
+	for k := 0; k < nf; k++ {
+		c25NextSizes = append(c25NextSizes, verifrt.IntRange("size", 0, 3<<20))
+	}
+	sender.Send(ev)
+	verifrt.Observe("messages", len(st.sent))
+	verifrt.Assert(len(st.sent) >= 1, "an event is never swallowed")
+	var names []string
+	withStats := 0
+	var total zoekt.Stats
+	for i, m := range st.sent {
+		names = append(names, m.files...)
+		if m.stats != nil {
+			withStats++
+			verifrt.AddInts(&total, m.stats, "")
+		}
+		if i < len(st.sent)-1 {
+			verifrt.Assert(m.pending >= m.priority, "a message that is not the last of its event announces pending results")
+		} else {
+			verifrt.Assert(m.priority == ev.Progress.Priority && m.pending == ev.Progress.MaxPendingPriority, "the last message of an event carries the event's own progress")
+		}
+	}
+	verifrt.Assert(withStats == 1, "the statistics of an event are attached to exactly one message")
+	verifrt.Assert(verifrt.EqInts(&total, &ev.Stats, c25Durations+",FlushReason"), "the statistics arrive unchanged")
+	verifrt.Assert(len(names) == nf, "every file of the event is delivered exactly once")
+	for k := range names {
+		verifrt.Assert(names[k] == string(rune('A'+k)), "files are delivered in order")
+	}
+	verifrt.Reach("returned")
+}
+
+var c25NextSizes []int
+
+// time.Duration fields travel as durationpb messages (a blackholed dependency): left at zero
+const c25Durations = "Duration,Wait,MatchTreeConstruction,MatchTreeSearch"
